@@ -358,7 +358,7 @@ package tags
 //@ ghost e Val = nil
 //@ at call InnerString #1: s = result0
 //@ at call InnerString #1: e = result1
-//@ ensures bound: e == nil ==> result == nil && has(ctx.Bindings(), varname) && ctx.Bindings()[varname] == box(s)
+//@ ensures bound: e == nil ==> result == nil && has(ctx.Bindings(), varname) && ctx.Bindings()[varname] == box(s, string)
 //@ ensures error: e != nil ==> result == e
 //@ ensures notOutput: wtotal(w) == old(wtotal(w))
 
